@@ -881,6 +881,7 @@ class Facts:
         self.features = raw.get("features", [])
         self.bodies = {}
         self.order = []
+        absorbed = set(raw.get("_absorbed_helpers", []))
         for b in raw["bodies"]:
             body = Body(b, self)
             # duplicate paths (e.g. impls for different type args) get an ordinal
@@ -892,7 +893,9 @@ class Facts:
                 k = "%s#%d" % (p, n)
             body.key = k
             self.bodies[k] = body
-            self.order.append(k)
+            # a helper that has been inlined at every call site is looked up by name if needed, but not scanned again
+            if not (body.path in absorbed or any(body.path.startswith(h + "::{") for h in absorbed)):
+                self.order.append(k)
         self.adts = {a["path"]: a for a in raw["adts"]}
         self.impls = raw["impls"]
         self.consts = {c["path"]: c for c in raw["consts"]}
